@@ -42,7 +42,7 @@ impl Property for C13 {
     type Case = Case;
     const ID: &'static str = "C13";
     fn rule() -> &'static str {
-        "a case is a mesh (closed: boxes, prisms, octahedra, icospheres, tori; open: height-field grids, L-shapes, tubes, fans; shuffled numbering, any pose) with a plane of any normal whose offset is a fraction of the mesh extent (inside, grazing, missing) or passes exactly through a vertex (robustness family: only no-panic and on-plane/on-surface are required), and a second isometry for the commutation clause. Generic planes keep every vertex at least 1e-4 of the mesh size from the plane. Oracle: harness face-plane crossing segments (each exactly once), exhaustive distance to the surface, closedness on watertight meshes, one loop with the polygon perimeter on convex solids, side/area bookkeeping for splits. Non-trivial: plane normal not axis-aligned in the mesh frame and at least 4 faces cut. Distinct = distinct canonical JSON."
+        "a case is a mesh (closed: boxes, prisms, octahedra, icospheres, tori; open: height-field grids, L-shapes, tubes, fans; shuffled numbering, any pose; one case in a few thousand is a height field of 260..330 squared vertices, checked with the linear-time clauses only) with a plane of any normal whose offset is a fraction of the mesh extent (inside, grazing, missing) or passes exactly through a vertex (robustness family: only no-panic and on-plane/on-surface are required), and a second isometry for the commutation clause. Generic planes keep every vertex at least 1e-4 of the mesh size from the plane. Oracle: harness face-plane crossing segments (each exactly once), exhaustive distance to the surface, closedness on watertight meshes, one loop with the polygon perimeter on convex solids, side/area bookkeeping for splits. Non-trivial: plane normal not axis-aligned in the mesh frame and at least 4 faces cut. Distinct = distinct canonical JSON."
     }
     fn cases(t: Tier) -> u32 {
         t.pick(240_000, 1_500_000)
@@ -53,11 +53,14 @@ impl Property for C13 {
         Some(std::time::Duration::from_secs(20))
     }
     fn expected_labels() -> Vec<&'static str> {
-        vec!["closed_mesh", "open_mesh", "convex", "miss", "cut", "through_vertex", "split_pair", "split_one_side", "two_loops", "commutes", "exact_in_plane_edge", "exact_convex_loop", "through_saddle_vertex", "through_vertex_closed_checked"]
+        vec!["closed_mesh", "open_mesh", "convex", "miss", "cut", "through_vertex", "split_pair", "split_one_side", "two_loops", "commutes", "exact_in_plane_edge", "exact_convex_loop", "through_saddle_vertex", "through_vertex_closed_checked", "mesh_above_65536_vertices"]
     }
     fn strategy(t: Tier) -> BoxedStrategy<Case> {
         let gmax = t.pick(8, 14);
-        let kind = prop_oneof![3 => closed_kind(2), 2 => open_kind(gmax)].boxed();
+        // one case in a few thousand is a height field with more than 65536 vertices (index arithmetic in 32 bits)
+        let big = (260usize..=330, 260usize..=330, unif(4.0, 8.0), any::<u64>(), (unif(0.05, 0.4), unif(0.5, 2.0), unif(0.5, 2.0)))
+            .prop_map(|(nx, ny, s, diag, (amp, fx, fy))| MeshKind::Grid { nx, ny, sx: s, sy: s, jitter: 0.2, diag, height: Height::Waves { amp, fx, fy } });
+        let kind = prop_oneof![3000 => closed_kind(2), 2000 => open_kind(gmax), 1 => big].boxed();
         (clean_mesh(kind, 10.0), unit3(), prop_oneof![8 => unif(-0.2, 1.2).prop_map(Offset::Fraction), 1 => any::<u16>().prop_map(Offset::ThroughVertex), 1 => (any::<u16>(), any::<u16>(), any::<u16>()).prop_map(|(a, b, c)| Offset::ThroughThree(a, b, c)), 1 => (any::<u16>(), unif(0.0, 3.1416)).prop_map(|(e, a)| Offset::ThroughEdge(e, a)), 1 => (any::<u16>(), prop_oneof![1 => Just(0.0), 2 => unif(0.0, 0.5)], unif(0.0, 6.2832)).prop_map(|(i, tilt, az)| Offset::TangentAtVertex(i, tilt, az))], iso3(10.0), any::<bool>())
             .prop_map(|(mut mesh, normal, offset, t, solid)| {
                 mesh.flip_all = false;
@@ -178,7 +181,9 @@ fn check(case: &Case) -> Verdict {
     if exact {
         return check_exact(cx, case, &bm, &soup, n, d, &proj);
     }
-    let margin = 1e-4 * size;
+    // (a height field with tens of thousands of vertices always has one within 1e-4 of its size of any plane: there the margin
+    // is ten times the library's absolute sectioning epsilon of 1e-6)
+    let margin = if soup.f.len() > 50_000 { 1e-5f64.max(1e-6 * size) } else { 1e-4 * size };
     let generic = proj.iter().all(|p| (p - d).abs() >= margin);
     if !robust && !generic {
         return Verdict::Discard("plane within the margin of a vertex");
@@ -207,6 +212,27 @@ fn check(case: &Case) -> Verdict {
         Ok(c) => c,
         Err(f) => return Verdict::Fail(f),
     };
+    // meshes beyond 50 000 faces take the cheap clauses only (the exhaustive on-surface scan is quadratic): every vertex on the
+    // plane, as many curve edges as faces crossed, and the total length equal to the sum of the face crossings
+    if soup.f.len() > 50_000 {
+        cx.label("mesh_above_65536_vertices");
+        for (ci, c) in curves.iter().enumerate() {
+            for (vi, p) in c.points().iter().enumerate() {
+                let sd = plane.signed_distance_to_point(p);
+                ensure!(sd.abs() <= 1e-8 * scale, "C13/section/vertex_off_plane", "curve {ci} vertex {vi} is {sd:e} from the plane");
+            }
+        }
+        if !robust {
+            let segs = crossings(&soup, &n, d);
+            let nedges: usize = curves.iter().map(|c| c.points().len() - 1).sum();
+            ensure!(nedges == segs.len(), "C13/section/crossing_segments_exactly_once", "{} face crossings but {nedges} curve edges", segs.len());
+            let total: f64 = curves.iter().map(|c| c.length()).sum();
+            let per: f64 = segs.iter().map(|(a, b, _)| (a - b).norm()).sum();
+            ensure!((total - per).abs() <= 1e-8 * scale * (1.0 + segs.len() as f64 * 1e-3), "C13/section/total_length", "total curve length {total:e}, sum of face crossings {per:e}");
+        }
+        cx.nontrivial();
+        return cx.pass();
+    }
     // (a) on the plane and on the surface
     for (ci, c) in curves.iter().enumerate() {
         for (vi, p) in c.points().iter().enumerate() {
